@@ -19,9 +19,9 @@ META = {
         'columns are re-indexed by the same permutation, which is a reversed argsort of the eigenvalues (descending, pairs matched); '
         'C15.COV - the decomposed matrix is np.cov / np.corrcoef of the (standardised) data over columns, i.e. mean-centred; '
         'C15.PURE-PROPS - the lazy properties of computechi2 and pcomp neither assign attributes nor write in place into attribute '
-        'arrays (reading them in any order gives the same values); C15.USEMASK - pca_solve returns outmask.sum(0), the count of good '
+        'arrays (reading them in any order gives the same values); C15.PINV - computechi2 forms the pseudo-inverse from every singular value, with no absolute cut-off; C15.SYNW - the synthetic weights of pca_solve never become 0 for a pixel masked in every spectrum; C15.USEMASK - pca_solve returns outmask.sum(0), the count of good '
         'spectra per pixel. NOT decided: every optimality, monotonicity, normalisation and projection statement (numerical).'),
-    'floors': {'C15.HMF-IMMUT': 2, 'C15.SEED': 2, 'C15.EIG-ALIGN': 2, 'C15.COV': 2, 'C15.PURE-PROPS': 10, 'C15.USEMASK': 1},
+    'floors': {'C15.HMF-IMMUT': 2, 'C15.SEED': 2, 'C15.EIG-ALIGN': 2, 'C15.COV': 2, 'C15.PURE-PROPS': 10, 'C15.USEMASK': 1, 'C15.PINV': 2, 'C15.SYNW': 1},
 }
 
 SPEC1D = 'pydl/pydlspec2d/spec1d.py'
@@ -189,7 +189,48 @@ def check_usemask(ctx, repo):
     ctx.need(len(store) == 1 and src(store[0].value) == 'usemask', 'pca_solve: usemask not returned')
 
 
+def check_pinv(ctx, repo):
+    f = repo.func(MATH, 'computechi2.__init__')
+    ctx.cover(f)
+    bad = []
+    for c in walk_local(f.node):
+        if isinstance(c, ast.Compare) and 'ww' in src(c.left) + src(c.comparators[0]):
+            other = c.comparators[0] if 'ww' in src(c.left) else c.left
+            v = try_fold(other)
+            if 'finfo' in src(other) or 'eps' in src(other).lower() or (isinstance(v, float) and 0 < abs(v) < 1e-3):
+                if '.max()' not in src(c) and 'max(' not in src(c):
+                    bad.append(c)
+    ctx.check('C15.PINV', not bad, f, bad[0] if bad else f.node, 'the pseudo-inverse uses every singular value (no absolute cut-off)',
+              msg='singular values are discarded below an absolute threshold (`%s`): a full-rank system whose weighted matrix is globally small is treated as '
+                  'singular and the coefficients come back zero' % (src(bad[0]) if bad else ''), construct='absolute singular-value cut-off')
+    mm = [st for st in walk_local(f.node) if isinstance(st, ast.Assign) and src(st.targets[0]) == 'self.mmi']
+    ctx.check('C15.PINV', len(mm) == 1 and 'self.vv.T' in src(mm[0].value) and 'self.uu.T' in src(mm[0].value) and 'ww' in src(mm[0].value) + ''.join(
+        src(v) for n in ast.walk(mm[0].value) if isinstance(n, ast.Name) for d, v in FA(f).defs(n) if v is not None), f, mm[0] if mm else f.node,
+        'mmi = V^T diag(1/w) U^T is formed eagerly in the constructor', msg='the pseudo-inverse is not formed as V^T / w . U^T in the constructor', construct='mmi')
+
+
+def check_synw(ctx, repo):
+    f = repo.func(SPEC1D, 'pca_solve')
+    fa = FA(f)
+    ds = [st for st in walk_local(f.node) if isinstance(st, ast.Assign) and src(st.targets[0]).startswith('synwvec')]
+    ctx.need(ds, 'pca_solve: synthetic weight vector not found')
+    init = [st for st in ds if src(st.targets[0]) == 'synwvec']
+    stores = [st for st in ds if st not in init]
+    if len(init) == 1 and isinstance(init[0].value, ast.Call) and call_name(init[0].value) == 'ones':
+        guarded = all(isinstance(st._parent, ast.If) and '.any()' in src(st._parent.test) for st in stores)
+        ctx.check('C15.SYNW', guarded and bool(stores), f, stores[0] if stores else init[0],
+                  'synthetic weights start at 1 and are replaced only where some spectrum has weight (never 0 for a pixel masked everywhere)',
+                  msg='a synthetic weight is overwritten without testing that some spectrum has weight there', construct='synwvec stores')
+    elif any('where(' in src(st.value) for st in init):
+        ctx.ok('C15.SYNW', f, init[0], 'synthetic weights use an explicit np.where fallback')
+    else:
+        raise AnalysisError('C15: pca_solve builds the synthetic weight vector as `%s`: whether a pixel masked in every spectrum keeps a non-zero weight '
+                            'cannot be judged from this form' % src(init[0].value)[:60])
+
+
 def run(ctx):
+    check_pinv(ctx, ctx.repo)
+    check_synw(ctx, ctx.repo)
     n = check_hmf(ctx, ctx.repo)
     ctx.need(n >= 2, 'HMF: expected guarded in-place writes not found')
     check_seed(ctx, ctx.repo)
